@@ -159,7 +159,7 @@ impl<'s> Env for RrEnv<'s> {
                 self.q_stream[j] = Some(st);
                 let sink: std::pin::Pin<Box<dyn futures::Sink<Frame, Error = SeliumError> + Send>> = Box::pin(MockSink { id: si, w: w.clone() });
                 let stream: futures::stream::BoxStream<'static, Result<Frame, SeliumError>> = Box::pin(MockStream { id: st, w: w.clone() });
-                self.tx.try_send(Socket::Client((sink, stream))).expect("registration channel has room");
+                self.tx.clone().try_send(Socket::Client((sink, stream))).expect("registration channel has room");
             }
             RSock::R(k) => {
                 let (si, st) = {
@@ -178,7 +178,7 @@ impl<'s> Env for RrEnv<'s> {
                 self.r_stream[k] = Some(st);
                 let sink: std::pin::Pin<Box<dyn futures::Sink<Frame, Error = SeliumError> + Send>> = Box::pin(MockSink { id: si, w: w.clone() });
                 let stream: futures::stream::BoxStream<'static, Result<Frame, SeliumError>> = Box::pin(MockStream { id: st, w: w.clone() });
-                self.tx.try_send(Socket::Server((sink, stream))).expect("registration channel has room");
+                self.tx.clone().try_send(Socket::Server((sink, stream))).expect("registration channel has room");
             }
         }
     }
